@@ -60,8 +60,10 @@ CLAIMS = {
                   "miniature float formats", design_ref="6/C05"),
     "C10": dict(
         text="SCALE encode/decode (exact, every short prefix, long input), encoded_size, max_encoded_len, le/be/ne byte views, bits round "
-             "trips and the serde struct/sequence forms, validated by TLC against LEBytes(bits mod 2^w, w/8) for every value of the 8-bit "
-             "layouts and lattice+random values of 88 wider layouts.",
+             "trips, every method of the Encode trait (encode, encode_to, using_encoded on the value / a reference / a Box, encoded_size), "
+             "nested / appended / Option / Vec / array encodings, the serde struct/sequence forms and the Wrapping<F> serde round trip, "
+             "validated by TLC against LEBytes(bits mod 2^w, w/8) for every value of the 8-bit layouts and lattice+random values of 88 "
+             "wider layouts; malformed serde documents must not panic.",
         technique="TLA+ trace validation with TLC (impl->spec)", design_ref="6/C10"),
     "C11": dict(
         text="The union corpus of the arithmetic, comparison, conversion, float, codec and Wrapping generators is recorded by the harness "
@@ -72,7 +74,10 @@ CLAIMS = {
         design_ref="6/C11"),
     "C18": dict(
         text="Random 14-step programs over four registers of Wrapping<F> (all operators in by-value/by-reference/assigning forms, 12 shift "
-             "amount types, Sum/Product, rounding, from_num) on 36 layouts under both build profiles; the trace specification is a "
+             "amount types, bit operators in all six spellings, rotates, Sum/Product, rounding, from_num, the constructors min_value / "
+             "max_value / from_bits / From<F>, and the observers count_ones/zeros, leading/trailing_zeros, is_power_of_two, is_negative, "
+             "int_nbits, frac_nbits, to_bits, to_num into 14 destinations, Display) on 36 layouts under both build profiles, plus systematic "
+             "programs for every operation over the boundary lattice / every 8-bit value; the trace specification is a "
              "register machine (tla/sem/SemWrap.tla): TLC keeps the registers itself and recomputes every step modulo 2^w from its own "
              "state, so a wrong intermediate is caught at the step that produced it. Panics accepted only for a zero divisor.",
         technique="TLA+ trace validation with TLC of a stateful register-machine specification (impl->spec), both build profiles; "
@@ -99,7 +104,8 @@ CLAIMS = {
              "operands at the extremes (min, max, +-1 ulp, reciprocal-overflow edge, exponents up to i32::MIN/MAX); TLC requires outcome "
              "kind Ok/Err (no panic, no exhausted iteration budget), Err for undefined requests and for exp / pow / powi results that clearly do "
              "not fit (beyond the maximum by more than the error C15 allows), and a normal return of sin/cos/tan inside "
-             "the stated angle domain (the tan domain is decided with the specification's own sin/cos reference).",
+             "the stated angle domain (the tan domain is decided with the specification's own sin/cos reference). Design lemma TrigReduce "
+             "(Apalache, every angle): no intermediate of the argument reduction of sin / cos / tan leaves a 9-integer-bit type.",
         technique="TLA+ trace validation with TLC (impl->spec), both build profiles, loop-budget hook", design_ref="6/C12"),
     "C13": dict(
         text="sqrt results validated by TLC through an integer certificate (no square root needed): max(r-4,0)^2 <= x*2^(2fD-fS) <= (r+4)^2, "
@@ -121,8 +127,14 @@ CLAIMS = {
     "C16": dict(
         text="sin / cos / tan results validated by TLC against Taylor-series references at 200 bits after reduction modulo 2 pi (pi from "
              "Machin's formula, computed in the specification): |r - sin x| <= 2^-16, |r| <= 1 + 2^-16 for |x| <= 200; "
-             "|r c^2 - s c| <= 2^-14 for tan where |x| <= 100 and |tan x| <= 64.",
-        technique="TLA+ trace validation with TLC (impl->spec), high-precision reference arithmetic written in TLA+", design_ref="6/C16"),
+             "|r c^2 - s c| <= 2^-14 for tan where |x| <= 100 and |tan x| <= 64. Design lemmas at the real widths, for every operand: "
+             "TrigReduce (Apalache: the reduction by % / period correction / mirroring brings EVERY angle |x| <= 200 into [-pi/2, pi/2] in at "
+             "most 32 periods without leaving a 9-integer-bit type), CordicZ (Apalache: from every such angle, for every truncation of the "
+             "arctangent table, the 24 rotations leave a residual of at most 16 ulp of I9F23), MC_TrigConst (TLC, 200-bit arithmetic: the "
+             "constants are the truncations of 2 pi, pi, pi/2, the table is atan(2^-i), and reduction + mirror + residual + table "
+             "truncation stay below 2^-17).",
+        technique="TLA+ trace validation with TLC (impl->spec), high-precision reference arithmetic written in TLA+; Apalache / TLC design "
+                  "lemmas of the argument reduction and the CORDIC angle recurrence at the real widths", design_ref="6/C16"),
     "C17": dict(
         text="every call of sqrt, log2, ln, exp, pow, sin, cos, tan in the C12 corpus (largest/smallest magnitudes, angles 2^k up to the "
              "maximum, both profiles) carries the loop-iteration count read from the guarded hook; TLC checks it <= 4*max(wS,wD)+64 and "
